@@ -1004,6 +1004,9 @@ def call_builtin_method(it, st, recv: V, name: str, args, kwargs, node) -> V:
             return VStr(decode_ascii(bytes_of_val(recv.t)))
         if name == "lower":
             return VBytes(lower_b(bytes_of_val(recv.t)))
+        h = eng.reg.__dict__.get("val_methods", {}).get(name)
+        if h is not None:
+            return h(it, st, recv, args, kwargs, node)
         if name == "items":
             raise Unsupported("items() of opaque mapping")
     if isinstance(recv, VDict):
